@@ -71,6 +71,8 @@ op = st.one_of(
     st.tuples(st.just('reconf'), st.sampled_from(['clear', 'regex-slice', 'add-keywords', 'regex-only']), st.integers(0, 60)),
     st.tuples(st.just('reinit')),
     st.tuples(st.just('instance')),
+    # a second, private Lexer object is built and configured: the default lexer that parse/split/format use is not involved
+    st.tuples(st.just('private'), st.sampled_from(['clear', 'regex-slice', 'add-keywords', 'default+clear', 'default+add-keywords']), st.integers(0, 60)),
 )
 history = st.lists(st.tuples(op, st.integers(0, NPROBES - 1)), min_size=1, max_size=25).map(
     lambda xs: {'ops': [list(o) for o, _ in xs], 'probes': [p for _, p in xs]})
@@ -103,7 +105,7 @@ def check_history(case):
     lx = lexer.Lexer.get_default_instance()
     lx.default_initialization()
     mode = 'default'
-    raised = abandoned = reconf_pair = 0
+    raised = abandoned = reconf_pair = private = 0
     was_reconf = False
     first_instance = lx
     for step, (o, pi) in enumerate(zip(case['ops'], case['probes'])):
@@ -195,6 +197,24 @@ def check_history(case):
                     lx._keywords.insert(0, lx._keywords.pop())
                 mode = 'reconfigured'
                 was_reconf = True
+            elif kind == 'private':
+                inst = lexer.Lexer()
+                if o[1].startswith('default+'):
+                    inst.default_initialization()
+                else:
+                    inst.clear()
+                if o[1] == 'regex-slice':
+                    inst.set_SQL_REGEX(keywords.SQL_REGEX[o[2] % len(keywords.SQL_REGEX):])
+                elif o[1].endswith('add-keywords'):
+                    inst.set_SQL_REGEX(keywords.SQL_REGEX)
+                    inst.add_keywords({'ZORK': T.Keyword, 'SELECT': T.Name, 'FROM': T.Keyword.DML, 'T': T.Keyword, 'A': T.Name.Builtin, 'X': T.Keyword.DML})
+                elif o[1].endswith('clear'):
+                    inst.clear()
+                try:
+                    list(inst.get_tokens('select a from t where x = 1'))
+                except Exception:
+                    pass          # what an oddly configured private lexer does with a text is not the subject
+                private += 1
             elif kind == 'reinit':
                 lexer.Lexer.get_default_instance().default_initialization()
                 if was_reconf:
@@ -245,7 +265,7 @@ def check_history(case):
             break
     res.nontrivial = raised >= 1 and (abandoned >= 1 or reconf_pair >= 1)
     res.labels = ['history', 'raised'] * 1 if raised else ['history']
-    res.labels += ['abandoned-generator'] * bool(abandoned) + ['reconf+reinit'] * bool(reconf_pair) + ['op:' + o[0] for o in case['ops']]
+    res.labels += ['abandoned-generator'] * bool(abandoned) + ['reconf+reinit'] * bool(reconf_pair) + ['private-lexer'] * bool(private) + ['op:' + o[0] for o in case['ops']]
     res.sample = {'ops': [str(o)[:80] for o in case['ops'][:8]], 'probes': case['probes'][:8]}
     return res
 
